@@ -73,6 +73,69 @@ fn enc_obs(r: std::thread::Result<Result<Vec<u8>, Error>>) -> String {
     }
 }
 
+/// A caller-supplied reader that serves its data in short pieces (sizes cycle through a list chosen
+/// by the case) and reports Interrupted on some calls: exercises the crate's own default
+/// `read_exact` (src/no_std.rs), which the slice reader never splits.
+struct Pieces<'a> {
+    data: &'a [u8],
+    k: usize,
+    calls: usize,
+}
+
+const PIECE_SIZES: [&[usize]; 4] = [&[1], &[1, 2, 3, 5, 8, 13], &[4096, 1, 7], &[3, 65536]];
+
+impl<'a> Pieces<'a> {
+    fn new(data: &'a [u8], k: usize) -> Self {
+        Pieces { data, k, calls: 0 }
+    }
+    fn len(&self) -> usize {
+        self.data.len()
+    }
+}
+
+impl Read for Pieces<'_> {
+    fn read(&mut self, buf: &mut [u8]) -> Result<usize, Error> {
+        self.calls += 1;
+        if self.calls % 5 == 3 {
+            return Err(Error::Interrupted);
+        }
+        let sizes = PIECE_SIZES[self.k % PIECE_SIZES.len()];
+        let n = sizes[self.calls % sizes.len()].min(buf.len()).min(self.data.len());
+        buf[..n].copy_from_slice(&self.data[..n]);
+        self.data = &self.data[n..];
+        Ok(n)
+    }
+}
+
+/// A caller-supplied sink that accepts only a few bytes per call and reports Interrupted on some
+/// calls: exercises the crate's own default `write_all`.
+struct ShortSink {
+    out: Vec<u8>,
+    k: usize,
+    calls: usize,
+}
+
+impl Write for ShortSink {
+    fn write(&mut self, buf: &[u8]) -> Result<usize, Error> {
+        self.calls += 1;
+        if self.calls % 5 == 3 {
+            return Err(Error::Interrupted);
+        }
+        let sizes = PIECE_SIZES[self.k % PIECE_SIZES.len()];
+        let n = sizes[self.calls % sizes.len()].min(buf.len());
+        self.out.extend_from_slice(&buf[..n]);
+        Ok(n)
+    }
+    fn flush(&mut self) -> Result<(), Error> {
+        Ok(())
+    }
+}
+
+/// The slice run and the run through the piecewise reader / short sink must observe the same.
+fn both(plain: String, pieces: String) -> String {
+    if plain == pieces { plain } else { format!("{} BUT-IN-PIECES {}", plain, pieces) }
+}
+
 fn sizes_of(s: &str) -> Vec<usize> {
     if s == "." { vec![] } else { s.split(',').map(|x| x.parse().unwrap()).collect() }
 }
@@ -118,7 +181,7 @@ fn observe<'a, R: Read>(ctor: impl FnOnce() -> Result<R, Error>, sizes: &[usize]
     .unwrap_or_else(|_| "PANIC".to_string())
 }
 
-fn exec(a: &[&str]) -> String {
+fn exec(k: usize, a: &[&str]) -> String {
     // the bias variants of the twins area: the bias hook does not exist without std, the bytes must not depend on it
     let (cmd, a): (&str, &[&str]) = match a[0] {
         "lzma1encb" => ("lzma1enc", &a[1..]),
@@ -138,13 +201,21 @@ fn exec(a: &[&str]) -> String {
                 2 => (false, true, None),
                 _ => (false, false, None),
             };
-            enc_obs(catch_unwind(AssertUnwindSafe(|| {
+            let plain = enc_obs(catch_unwind(AssertUnwindSafe(|| {
                 let mut w = LZMAWriter::new(Vec::new(), &o, header, marker, expected)?;
                 for p in &parts {
                     w.write_all(p)?;
                 }
                 w.finish()
-            })))
+            })));
+            let short = enc_obs(catch_unwind(AssertUnwindSafe(|| {
+                let mut w = LZMAWriter::new(ShortSink { out: Vec::new(), k, calls: 0 }, &o, header, marker, expected)?;
+                for p in &parts {
+                    w.write_all(p)?;
+                }
+                w.finish().map(|s| s.out)
+            })));
+            both(plain, short)
         }
         "lzma2enc" => {
             let preset = if a[3] == "none" { None } else { Some(unhex(a[3])) };
@@ -152,9 +223,9 @@ fn exec(a: &[&str]) -> String {
             let chunk: u64 = a[2].parse().unwrap();
             let parts = unhex_parts(a[4]);
             let flushes: Vec<usize> = if a[5] == "." { vec![] } else { a[5].split(',').map(|x| x.parse().unwrap()).collect() };
-            enc_obs(catch_unwind(AssertUnwindSafe(|| {
+            let plain = enc_obs(catch_unwind(AssertUnwindSafe(|| {
                 let mut opt = LZMA2Options::default();
-                opt.lzma_options = o;
+                opt.lzma_options = o.clone();
                 opt.chunk_size = NonZeroU64::new(chunk);
                 let mut w = LZMA2Writer::new(Vec::new(), opt);
                 for (i, p) in parts.iter().enumerate() {
@@ -164,32 +235,58 @@ fn exec(a: &[&str]) -> String {
                     }
                 }
                 w.finish()
-            })))
+            })));
+            let short = enc_obs(catch_unwind(AssertUnwindSafe(|| {
+                let mut opt = LZMA2Options::default();
+                opt.lzma_options = o.clone();
+                opt.chunk_size = NonZeroU64::new(chunk);
+                let mut w = LZMA2Writer::new(ShortSink { out: Vec::new(), k, calls: 0 }, opt);
+                for (i, p) in parts.iter().enumerate() {
+                    w.write_all(p)?;
+                    if flushes.contains(&i) {
+                        w.flush()?;
+                    }
+                }
+                w.finish().map(|s| s.out)
+            })));
+            both(plain, short)
         }
         "lzma1_hdr" => {
             let ml: u32 = a[1].parse().unwrap();
             let stream = unhex(a[2]);
-            observe(|| LZMAReader::new_mem_limit(&stream[..], ml, None), &sizes_of(a[3]), |r| r.into_inner().len())
+            both(
+                observe(|| LZMAReader::new_mem_limit(&stream[..], ml, None), &sizes_of(a[3]), |r| r.into_inner().len()),
+                observe(|| LZMAReader::new_mem_limit(Pieces::new(&stream, k), ml, None), &sizes_of(a[3]), |r| r.into_inner().len()),
+            )
         }
         "lzma1_raw" => {
             let u: u64 = if a[1] == "-1" { u64::MAX } else { a[1].parse().unwrap() };
             let (lc, lp, pb, d): (u32, u32, u32, u32) = (a[2].parse().unwrap(), a[3].parse().unwrap(), a[4].parse().unwrap(), a[5].parse().unwrap());
             let pre = if a[6] == "none" { None } else { Some(unhex(a[6])) };
             let stream = unhex(a[7]);
-            observe(|| LZMAReader::new(&stream[..], u, lc, lp, pb, d, pre.as_deref()), &sizes_of(a[8]), |r| r.into_inner().len())
+            both(
+                observe(|| LZMAReader::new(&stream[..], u, lc, lp, pb, d, pre.as_deref()), &sizes_of(a[8]), |r| r.into_inner().len()),
+                observe(|| LZMAReader::new(Pieces::new(&stream, k), u, lc, lp, pb, d, pre.as_deref()), &sizes_of(a[8]), |r| r.into_inner().len()),
+            )
         }
         "lzma1_props" => {
             let u: u64 = if a[1] == "-1" { u64::MAX } else { a[1].parse().unwrap() };
             let (props, d): (u8, u32) = (a[2].parse().unwrap(), a[3].parse().unwrap());
             let pre = if a[4] == "none" { None } else { Some(unhex(a[4])) };
             let stream = unhex(a[5]);
-            observe(|| LZMAReader::new_with_props(&stream[..], u, props, d, pre.as_deref()), &sizes_of(a[6]), |r| r.into_inner().len())
+            both(
+                observe(|| LZMAReader::new_with_props(&stream[..], u, props, d, pre.as_deref()), &sizes_of(a[6]), |r| r.into_inner().len()),
+                observe(|| LZMAReader::new_with_props(Pieces::new(&stream, k), u, props, d, pre.as_deref()), &sizes_of(a[6]), |r| r.into_inner().len()),
+            )
         }
         "lzma2" => {
             let d: u32 = a[1].parse().unwrap();
             let pre = if a[2] == "none" { None } else { Some(unhex(a[2])) };
             let stream = unhex(a[3]);
-            observe(|| Ok(LZMA2Reader::new(&stream[..], d, pre.as_deref())), &sizes_of(a[4]), |r| r.into_inner().len())
+            both(
+                observe(|| Ok(LZMA2Reader::new(&stream[..], d, pre.as_deref())), &sizes_of(a[4]), |r| r.into_inner().len()),
+                observe(|| Ok(LZMA2Reader::new(Pieces::new(&stream, k), d, pre.as_deref())), &sizes_of(a[4]), |r| r.into_inner().len()),
+            )
         }
         _ => "SKIP".into(),
     }
@@ -215,7 +312,7 @@ fn main() {
                 break;
             }
             let toks: Vec<&str> = lines[i].split(' ').collect();
-            let r = catch_unwind(AssertUnwindSafe(|| exec(&toks[1..]))).unwrap_or_else(|_| "HARNESS-PANIC".into());
+            let r = catch_unwind(AssertUnwindSafe(|| exec(i, &toks[1..]))).unwrap_or_else(|_| "HARNESS-PANIC".into());
             *results[i].lock().unwrap() = format!("{} {}", toks[0], r);
         }).unwrap());
     }
